@@ -106,7 +106,18 @@ randbytes = st.fixed_dictionaries({
     "via": st.sampled_from(["direct", "both"]),
 })
 
-attack = st.one_of(forged, forged, mutate, mutate, wrongkey, randbytes)
+# exactly what a brand-new client would send: a complete, padded, CRC-valid CLIENT_HELLO datagram (count 1, a decodable
+# public key that is not the victim's, version 1) carrying datagram number 1 (or the next one the target expects) - a peer
+# that "restarted", as far as a well-meaning heuristic can tell.  It was not produced with the session key
+freshhello = st.fixed_dictionaries({
+    "cls": st.just("freshhello"),
+    "target": st.sampled_from(["server", "server", "client"]),
+    "seq": st.sampled_from([1, 1, 2, "next"]),
+    "mseq": st.sampled_from([1, 1, "next"]),
+    "via": st.sampled_from(["direct", "both", "loop"]),
+})
+
+attack = st.one_of(forged, forged, mutate, mutate, wrongkey, randbytes, freshhello)
 
 traffic_tick = st.lists(scen.sends, min_size=0, max_size=3)
 
@@ -269,6 +280,12 @@ def build_attack(w, ch, atk, a):
             return None, "too-big"
         d = W.build_datagram(to_server, ctime, seq, ack, bits, a["ptype"], msgs, key=key, crc=crc)
         facts.update(names_pending=bool(conn.pending_acks) and a["ack"] != "zero", types=sorted({m[1] for m in msgs}))
+        return d, facts
+    if cls == "freshhello":
+        seq = a["seq"] if isinstance(a["seq"], int) else place_seq(conn, "next")
+        mseq = a["mseq"] if isinstance(a["mseq"], int) else seq_add(int(conn.bitfield_msg.current_seqnum), 1)
+        d = W.build_datagram(to_server, int(w.clock.t), seq, 0, 0, W.T_CLIENT_HELLO, [(mseq, W.T_CLIENT_HELLO, atk.hello_bytes())])
+        facts.update(names_pending=False, types=[W.T_CLIENT_HELLO])
         return d, facts
     if cls == "mutate":
         gen = lost_genuine(w, ch, target) if a.get("src") == "lost" and a["op"][0] != "extend" else []
